@@ -140,6 +140,20 @@ Slice(x, lo, hi, mx) ==
 (* ---- indirection ---- *)
 Star(x) == IF x.kind = "ptr" THEN Ok(x.elem) ELSE IF x.kind = "ptrarray" THEN Ok("[2]int") ELSE Err("notpointer")
 
+(* ---- conversions to composite types: T(x) ---- *)
+\* the type must be written in parentheses when it starts with * or <- or is a function type without result
+\* (that is a matter of the text; here: which conversions are valid)
+ConvTargets == {"*int", "<-chan int", "chan<- int", "chan int", "func()", "func() int", "[]int", "map[string]int", "any", "*[2]int"}
+ConvSources == {Nil, V("vpi", "*int"), V("vch", "chan int"), V("vsl", "[]int"), V("vparr", "*[2]int"), vi}
+NillableT(t) == t # "int"        \* every conversion target above can hold nil
+Conv2(t, o) ==
+  CASE o.k = "nil" -> IF NillableT(t) THEN Ok(t) ELSE Err("nilconv")
+    [] t = "any" -> Ok(t)
+    [] o.ty = t -> Ok(t)
+    [] o.ty = "chan int" /\ t \in {"<-chan int", "chan<- int"} -> Ok(t)
+    [] o.ty = "[]int" /\ t = "*[2]int" -> Ok(t)              \* slice to array pointer (Go 1.17)
+    [] OTHER -> Err("notconvertible")
+
 (* ---- the grid ---- *)
 RECURSIVE SeqsUpTo(_, _)
 SeqsUpTo(A, n) == IF n = 0 THEN {<<>>} ELSE LET shorter == SeqsUpTo(A, n - 1) IN shorter \cup {Append(q, x) : q \in {r \in shorter : Len(r) = n - 1}, x \in A}
@@ -154,6 +168,7 @@ Points ==
   \cup {[kind |-> "index", x |-> x, i |-> i] : x \in Indexables, i \in Indices}
   \cup {[kind |-> "slice", x |-> x, lo |-> lo, hi |-> hi, mx |-> mx] : x \in Indexables \ {xpi}, lo \in Bounds, hi \in Bounds, mx \in {None, c2, c5, vi}}
   \cup {[kind |-> "star", x |-> x] : x \in Indexables}
+  \cup {[kind |-> "conv", t |-> t, o |-> o] : t \in ConvTargets, o \in ConvSources}
 VARIABLE pt
 \* a[lo::max] is not syntax (the middle index is required in a 3-index slice)
 Init == pt \in {p \in Points : (p.kind = "structkey" => Len(p.fs) = Len(p.vals)) /\ (p.kind = "slice" => (Given(p.mx) => Given(p.hi)))}
@@ -164,6 +179,7 @@ Res == CASE pt.kind = "list" -> ListLit(pt.ety, pt.alen, pt.elems)
          [] pt.kind = "structkey" -> StructKeyed(pt.fs, pt.vals)
          [] pt.kind = "index" -> Index(pt.x, pt.i)
          [] pt.kind = "slice" -> Slice(pt.x, pt.lo, pt.hi, pt.mx)
+         [] pt.kind = "conv" -> Conv2(pt.t, pt.o)
          [] OTHER -> Star(pt.x)
 \* laws: an accepted literal has the literal's type; dropping the last element of an accepted list / map literal keeps it accepted
 TypeIsLiteralType == (Res.ok /\ pt.kind = "list") => Res.ty = (IF pt.alen >= 0 THEN "[2]" ELSE "[]") \o pt.ety
